@@ -25,11 +25,42 @@ From ZenoV Require Import Lib.Hex Html.Bytes.
 Import ListNotations.
 Open Scope char_scope.
 
-(* ---------- srcset: for every part of strings.Split(v, comma):
-                       strings.Split(strings.TrimSpace(part), space)[0] *)
+(* ---------- srcset as found: for every part of strings.Split(v, comma):
+                                strings.Split(strings.TrimSpace(part), space)[0]
+   (kept for the refutation witnesses; repaired by C07-srcset-whitespace and C07-srcset-comma) *)
 Definition first_token (s : bytes) : bytes := hd [] (split_on " " s).
-Definition srcset_urls (v : bytes) : list bytes :=
+Definition srcset_urls_orig (v : bytes) : list bytes :=
   map (fun part => first_token (trim_space part)) (split_on "," v).
+
+(* ---------- srcset: srcsetURLs, the splitting steps of HTML's srcset parser.
+   SSkip: skipping white space and commas; SUrl: inside a URL (up to the next ASCII white
+   space; [acc] reversed); SDesc: inside a descriptor (up to the next comma).  A URL that ends
+   with commas loses them and the candidate ends there; otherwise the descriptor follows. *)
+Definition is_hspace (c : ascii) : bool :=
+  let n := N_of_ascii c in
+  (n =? 32)%N || (n =? 9)%N || (n =? 10)%N || (n =? 12)%N || (n =? 13)%N.
+Fixpoint drop_commas (acc : bytes) : bytes :=
+  match acc with
+  | c :: r => if Ascii.eqb c "," then drop_commas r else acc
+  | [] => []
+  end.
+Definition ends_comma (acc : bytes) : bool :=
+  match acc with c :: _ => Ascii.eqb c "," | [] => false end.
+Inductive sst := SSkip | SUrl (acc : bytes) | SDesc.
+Fixpoint ss_scan (st : sst) (s : bytes) : list bytes :=
+  match s with
+  | [] => match st with SUrl acc => [rev (drop_commas acc)] | _ => [] end
+  | c :: r =>
+    match st with
+    | SSkip => if is_hspace c || Ascii.eqb c "," then ss_scan SSkip r else ss_scan (SUrl [c]) r
+    | SUrl acc =>
+      if is_hspace c
+      then rev (drop_commas acc) :: ss_scan (if ends_comma acc then SSkip else SDesc) r
+      else ss_scan (SUrl (c :: acc)) r
+    | SDesc => if Ascii.eqb c "," then ss_scan SSkip r else ss_scan SDesc r
+    end
+  end.
+Definition srcset_urls (v : bytes) : list bytes := ss_scan SSkip v.
 
 (* ---------- style attribute: backgroundImageRegex, group 1 of every match *)
 Inductive bst :=
@@ -92,11 +123,18 @@ Fixpoint css_scan (st : ust) (s : bytes) : list bytes :=
     end
   end.
 
-(* the rewriting of a match: quotes removed anywhere; every double slash becomes http:// unless
-   the text contains http; matches that start with #wp- are dropped *)
-Definition css_rewrite (m : bytes) : bytes :=
+(* the rewriting of a match as found: quotes removed anywhere; every double slash becomes
+   http:// unless the text contains http (repaired by C07-css-url-quotes and
+   C07-css-url-slashslash; kept for the refutation witnesses) *)
+Definition css_rewrite_orig (m : bytes) : bytes :=
   let m1 := strip_quotes m in
   if containsb (bs "http") m1 then m1 else slashslash m1.
+Definition css_urls_orig (text : bytes) : list bytes :=
+  filter (fun m => negb (prefixb (bs "#wp-") m)) (map css_rewrite_orig (css_scan UIdle text)).
+
+(* the rewriting of a match: strings.Trim(strings.TrimSpace(m), quotes); matches that start with
+   #wp- are dropped *)
+Definition css_rewrite (m : bytes) : bytes := trim_quotes (trim_space m).
 Definition css_urls (text : bytes) : list bytes :=
   filter (fun m => negb (prefixb (bs "#wp-") m)) (map css_rewrite (css_scan UIdle text)).
 
